@@ -156,10 +156,10 @@ _P["C07"] = {
 _P["C05"] = {
     "explanation": "Theorem C05_roundtrip (Properties/C05.v; Proofs/SegP.v, ParseRtAllP.v .. ParseRtAll7P.v, induction over recipes): for every controller-side message recipe whose arguments fit their fields "
                    "the parser entry point of Model/Parse.v returns the built value as a wire reader sees it (pview) and encoding that value again gives the original bytes - all action kinds, conntrack nesting, "
-                   "match fields against the decoder's own width table, instructions, buckets, 13 message kinds, nested bundles; C05_roundtrip_examples by computation. "
+                   "match fields against the decoder's own width table, instructions, buckets, 13 message kinds, nested bundles; C05_switch_side_roundtrip and C05_flow_statistics_roundtrip (Proofs/ParseSwRtP.v): a switch-side value parsed from its conformant frame re-encodes to the frame; C05_roundtrip_examples by computation. "
                    "Correspondence: every kind Parse dispatches on (controller- and switch-side), encode -> Parse -> encode with a canonical field dump before/after; for controller-side cases the recipe rides along and the "
                    "theorem's prediction is compared with the implementation (coverage.theorem_hypothesis_holds_on).",
-    "trusted_base": _DEC_TRUSTED, "assumptions": ["switch-side messages (no recipe model) are decided by the correspondence and by C04's examples only",
+    "trusted_base": _DEC_TRUSTED, "assumptions": ["for switch-side messages the frame is the specification encoding of the value (Model/BuildSw.v); that the library's own encoder produces it is decided by the correspondence",
                                                    "hypothesis pmsg_ok: numbers within field widths, register numbers below 16 and tunnel-metadata numbers below 8 (the decoder's table), sizes below 65000; D10 bodies excluded"],
     "harness_timeout": {"quick": 900, "thorough": 3400},
 }
